@@ -144,6 +144,7 @@ Section Pike.
             if iters <? max then
               match nth_error (p_insns prog) (S loop_ip) with
               | Some (Char c) => char_pike ix c fwd h (ps_pos s)
+              | Some JustFail => Ok None                     (* try_match_state: Fail *)
               | Some bi => match match1 ix prog bi fwd h (ps_pos s) with
                            | Some r => r
                            | None => Err Panic            (* unreachable!: body must match one char *)
